@@ -256,8 +256,11 @@ class RunBundler:
             coros.append(self._cache_describe(obj))
         elif collect and obj not in self._describe_collect_cache:
             coros.append(self._cache_describe_collect(obj))
+        # The caches are filled by separate (possibly asynchronous) calls, any of
+        # which may be cancelled by a pause or suspension: test each on its own.
         if obj not in self._config_desc_cache:
             coros.append(self._cache_describe_config(obj))
+        if obj not in self._config_values_cache:
             coros.append(self._cache_read_config(obj))
         await asyncio.gather(*coros)
 
